@@ -195,7 +195,13 @@ func (c *Context) Neg(d, x *Decimal) (Condition, error) {
 	if c.shouldSetAsNaN(x, nil) {
 		return c.setAsNaN(d, x, nil)
 	}
+	xneg := x.Negative
 	d.Neg(x)
+	if c.Rounding == RoundFloor && d.IsZero() {
+		// Neg is 0 - x. An exact-zero difference of two zeros of the same sign
+		// (0 - (+0)) is -0 when rounding toward -Infinity.
+		d.Negative = !xneg
+	}
 	res := c.round(d, d)
 	return c.goError(res)
 }
